@@ -6,7 +6,10 @@ import M4ri.Proto
 import M4ri.BMat
 import M4ri.Spec
 import M4ri.Mul
+import M4ri.Transpose
+import M4ri.MulW
 import M4ri.Elim
+import M4ri.Glue
 import M4ri.M4riElim
 import M4ri.Io
 import M4ri.Djb
@@ -165,10 +168,13 @@ def runOpW (op : String) (a : Array Val) : R (Array Val × Option (Array Val)) :
       let L ← argMat a 0; pure (both L (extractLInto L A) A.toB.sExtractL)
   | "transpose" =>
     let A ← argMat a 1
-    if argIsNull a 0 then pure (bothDst none (ofB A.toB.transpose) A.toB.sTranspose) else
+    -- exact mirror of the transposition kernels (M4ri/Transpose.lean); a window source whose last word is shared
+    -- with its parent is transposed from a masked copy (`mzd_is_dangerous_window(A)` branch of `mzd_transpose`)
+    let T := Tr.transposeMzd (ofB A.toB)
+    if argIsNull a 0 then pure (bothDst none T A.toB.sTranspose) else
       let D ← argMat a 0
       if D.nrows ≠ A.ncols ∨ D.ncols ≠ A.nrows then throw "die" else
-        pure (both D (D.putB A.toB.transpose) A.toB.sTranspose)
+        pure (both D (D.putB T.toB) A.toB.sTranspose)
   | "equal" =>
     let A ← argMat a 0; let B ← argMat a 1
     pure (#[vb (equal A B)], some #[vb (A.toB.sEqual B.toB)])
@@ -233,27 +239,31 @@ def runOpMul (op : String) (a : Array Val) : R (Array Val × Option (Array Val))
   let dimsBad : Bool := match C0 with | some C => decide (C.nrows ≠ A.nrows ∨ C.ncols ≠ B.ncols) | none => false
   let prod := Ab.mul Bb
   let same := argIsAlias a 2 1
+  -- word-level routes (M4ri/MulW.lean): the destination view with its excess bits, or a fresh matrix
+  let CW : Mzd := match C0 with | some C => C | none => Mzd.ofB (BMat.zero A.nrows B.ncols)
+  let prodW (model : Mzd) (spec : BMat) : Array Val × Option (Array Val) :=
+    (#[.mat model], some #[.mat (CW.putB spec)])
   match op with
   | "mul_naive" =>
-    if dimsBad then throw "die" else pure (prodResult C0 (mulNaive Cb Ab Bb true) prod)
+    if dimsBad then throw "die" else pure (prodW (W.mulNaiveW CW A B true) prod)
   | "addmul_naive" =>
-    if dimsBad then throw "die" else pure (prodResult C0 (mulNaive Cb Ab Bb false) (Cb.add prod))
+    if dimsBad then throw "die" else pure (prodW (W.mulNaiveW CW A B false) (Cb.add prod))
   | "mul_va" =>
     let clear := (← argNat a 3) ≠ 0
-    pure (prodResult C0 (mulVa Cb Ab Bb clear) (if clear then prod else Cb.add prod))
+    pure (prodW (W.mulVaW CW A B clear) (if clear then prod else Cb.add prod))
   | "mul_naive_t" =>
     -- `_mzd_mul_naive(C, A, BT, clear)`: the third operand is already transposed
     let clear := (← argNat a 3) ≠ 0
     let p := Ab.mul Bb.transpose
-    pure (prodResult C0 (mulNaiveT Cb Ab Bb clear) (if clear then p else Cb.add p))
+    pure (prodW (W.mulNaiveTW CW A B clear) (if clear then p else Cb.add p))
   | "mul_m4rm" =>
     let k ← argNat a 3
-    if A.ncols ≠ B.nrows ∨ dimsBad then throw "die" else pure (prodResult C0 (m4rm Cb Ab Bb k true) prod)
+    if A.ncols ≠ B.nrows ∨ dimsBad then throw "die" else pure (prodW (W.m4rmW CW A B k true) prod)
   | "addmul_m4rm" =>
     let k ← argNat a 3
     if Cb.ncols = 0 ∨ Cb.nrows = 0 then pure (prodResult C0 Cb Cb) else
     if A.ncols ≠ B.nrows ∨ dimsBad then throw "die" else
-      pure (prodResult C0 (m4rm Cb Ab Bb k false) (Cb.add prod))
+      pure (prodW (W.m4rmW CW A B k false) (Cb.add prod))
   | "mul" =>
     let cutoff ← argInt a 3
     if A.ncols ≠ B.nrows ∨ cutoff < 0 ∨ dimsBad then throw "die" else
@@ -384,6 +394,32 @@ def runOpAlg (op : String) (a : Array Val) : R (Array Val × Option (Array Val))
     let ok := Kb.nrows == A.ncols && Kb.ncols == A.ncols - r &&
       (Ab.mul Kb).eqM (BMat.zero A.nrows Kb.ncols) && Kb.rank == Kb.ncols
     pure (same #[vb ok])
+  -- ------------------------------------------------ glue routines, instantiated with the factorisation (S, P, Q, r)
+  -- that the implementation produced for this input (second phase of the correspondence run): exact mirrors
+  | "glue_solve" =>
+    -- S P Q r A0 B0 check : `_mzd_solve_left`
+    let S ← argMat a 0; let P ← argPerm a 1; let Q ← argPerm a 2; let r ← argNat a 3
+    let A ← argMat a 4; let B ← argMat a 5; let check := (← argNat a 6) ≠ 0
+    let R := SV.solveLeft (fun _ => (S.toB, P, Q, r)) A.toB B.toB check
+    pure (#[.int R.1, inPlace B R.2.2], none)
+  | "glue_pluq_solve" =>
+    -- S P Q r B0 check : `_mzd_pluq_solve_left`
+    let S ← argMat a 0; let P ← argPerm a 1; let Q ← argPerm a 2; let r ← argNat a 3
+    let B ← argMat a 4; let check := (← argNat a 5) ≠ 0
+    let R := pluqSolveLeft S.toB r P Q B.toB check
+    pure (#[.int R.1, inPlace B R.2], none)
+  | "glue_kernel" =>
+    -- S P Q r A0 : `mzd_kernel_left_pluq`
+    let S ← argMat a 0; let P ← argPerm a 1; let Q ← argPerm a 2; let r ← argNat a 3; let A ← argMat a 4
+    match SV.kernelLeftPluq (fun _ => (S.toB, P, Q, r)) A.toB with
+    | none => pure (#[.null], none)
+    | some K => pure (#[.mat (ofB K)], none)
+  | "glue_echelonize" =>
+    -- S P Q r A0 full : `mzd_echelonize_pluq`
+    let S ← argMat a 0; let P ← argPerm a 1; let Q ← argPerm a 2; let r ← argNat a 3; let A ← argMat a 4
+    let full := (← argNat a 5) ≠ 0
+    let R := PN.echelonizePluq (fun _ => (S.toB, P, Q, r)) A.toB full
+    pure (#[.int R.2, inPlace A R.1], none)
   | _ => throw "unknown-op"
 
 open Mzd BMat in
